@@ -3,15 +3,18 @@ import json, os, time
 from common import *
 
 def run_design(runs):
-    st = tr = 0
-    notes = []
-    for mod, cfg, w in runs:
-        r = tlc(mod, cfg, workers=w, timeout=3000)
+    """TLC on design configs (independent of /repo), a few at a time."""
+    from concurrent.futures import ThreadPoolExecutor
+    spec_dir()
+    def one(run_):
+        mod, cfg, w = run_
+        r = tlc(mod, cfg, workers=max(2, min(w, NCPU // 2)), timeout=3000)
         if not r.ok:
             raise Infra("design spec %s/%s violates %s: the specification itself is inconsistent\n%s" % (mod, cfg, r.violated, r.out[-3000:]))
-        st += r.distinct; tr += r.generated
-        notes.append({"module": mod, "cfg": cfg, "distinct": r.distinct, "generated": r.generated, "wall_s": round(r.wall, 1)})
-    return st, tr, notes
+        return {"module": mod, "cfg": cfg, "distinct": r.distinct, "generated": r.generated, "wall_s": round(r.wall, 1)}
+    with ThreadPoolExecutor(max_workers=3) as ex:
+        notes = list(ex.map(one, runs))
+    return sum(n["distinct"] for n in notes), sum(n["generated"] for n in notes), notes
 
 def drive(cmd, label, args, race=False, timeout=3000, extra_env=None):
     exe = build(cmd, race=race)
@@ -25,7 +28,44 @@ def drive(cmd, label, args, race=False, timeout=3000, extra_env=None):
     st = json.load(open(stats)) if os.path.exists(stats) else {}
     return tr, st, p
 
-def judge(label, module, cfg, trace, env=None, timeout=3000, expect_events=None, heap="6g", workers=1):
+def judge(label, module, cfg, trace, env=None, timeout=3000, expect_events=None, heap="6g", workers=1, shards=1):
+    """Validate a trace with a TraceKit-based spec. shards > 1: the events are judged one at a time
+    (no state is carried between them), so the trace is cut into contiguous chunks validated by
+    parallel TLC processes and the verdicts are merged (line numbers are mapped back)."""
+    if shards > 1:
+        lines = open(trace).read().splitlines(True)
+        n = len(lines)
+        shards = max(1, min(shards, n // 50 or 1))
+        if shards > 1:
+            from concurrent.futures import ThreadPoolExecutor
+            size = (n + shards - 1) // shards
+            parts = []
+            for i in range(shards):
+                chunk = lines[i * size:(i + 1) * size]
+                if not chunk:
+                    continue
+                pth = "%s.shard%d" % (trace, i)
+                with open(pth, "w") as f:
+                    f.writelines(chunk)
+                parts.append((i * size, pth, len(chunk)))
+            def one(part):
+                off, pth, ln = part
+                return off, judge("%s-s%d" % (label, off), module, cfg, pth, env=env, timeout=timeout, expect_events=ln, heap="3g", workers=1)
+            with ThreadPoolExecutor(max_workers=min(len(parts), NCPU)) as ex:
+                rs = list(ex.map(one, parts))
+            v = {"consumed": 0, "len": 0, "viols": [], "nviol": 0, "drift": [], "counts": {}, "tlc_states": 0, "tlc_generated": 0, "tlc_wall": 0.0}
+            for off, r in rs:
+                v["consumed"] += r["consumed"]; v["len"] += r["len"]; v["nviol"] += r["nviol"]
+                v["viols"] += [dict(x, l=x["l"] + off) for x in r["viols"]]
+                v["drift"] += [dict(x, l=x["l"] + off) for x in r.get("drift", [])]
+                for k, c in (r.get("counts") or {}).items():
+                    v["counts"][k] = v["counts"].get(k, 0) + c
+                v["tlc_states"] += r["tlc_states"]; v["tlc_generated"] += r["tlc_generated"]; v["tlc_wall"] = max(v["tlc_wall"], r["tlc_wall"])
+            if expect_events is not None and v["len"] != expect_events:
+                raise Infra("trace %s not fully consumed: %s of %s" % (label, v["len"], expect_events))
+            v.update(label=label, trace=trace)
+            log("[judge] %s: %d events in %d shards, %d violations, %d drift notes (%.1fs TLC)" % (label, v["len"], len(parts), v["nviol"], len(v["drift"]), v["tlc_wall"]))
+            return v
     res = os.path.join(scratch(), "%s.result.json" % label)
     e = {"VERIF_TRACE": trace, "VERIF_RESULT": res}
     if env:
